@@ -1,6 +1,8 @@
 #!/bin/sh
 # usage: seedcheck.sh <id>   -- confirms a seeded change left applied in /tmp/wt/<id> (patch in /tmp/seed/<id>/patch.diff)
 id=$1; wt=/tmp/wt/$id; sd=/tmp/seed/$id; out=$sd/confirm.txt
+# the worktree is brought to exactly HEAD + patch.diff (agents share one stash stack and may have disturbed each other)
+git -C $wt checkout -q -- . && git -C $wt apply $sd/patch.diff
 {
 echo "== patch applies to /repo HEAD: $(git -C /repo apply --check $sd/patch.diff 2>&1 && echo yes)"
 echo "== demo on changed worktree"; (cd $sd && PYTHONPATH=$wt /venv/bin/python demo.py 2>&1 | grep -v DEBUG | tail -3; echo "exit=$?")
